@@ -14,7 +14,8 @@ META = {
              "not start at its minimum; labelled in [0,360), in [-180,180) or unwrapped past 360; 8..144 bins), any frequency grid and leading dims, zero/NaN bins and "
              "all-zero frequency rows. Non-trivial = grid non-uniform or not starting at 0, and >= 2 non-zero "
              "directions; distinct = sha1 of the case."
-             " Direction grids also include equally spaced labels with another wrap-around bin width; a second sub-check evaluates objects holding 160..1500 spectra (densities expanded from a seed) with NaN bins."),
+             " Direction grids also include equally spaced labels with another wrap-around bin width; a second sub-check evaluates objects holding 160..1500 spectra (densities expanded from a seed) with NaN bins."
+             " A quarter of the cases store the density direction-major (..., direction, frequency)."),
     "assumptions": [
         "oracle bin width = (theta[i+1]-theta[i]) mod 360 with wrap, computed independently; sums to 360 within 1e-9",
         "e and moment numerators compared within 1e-12*sum|terms|; moments (ratios) within 1e-11 where e>0; rows with e==0 yield NaN and are exempt from the bounds",
